@@ -1155,23 +1155,24 @@ def decodeRecord (ty : Nat) (d : Slice) : R (V × Bool) :=
   else .panic     -- repl stays nil
 
 structure St where
-  n : UInt16
+  n : Nat
   body : List V
   err : Bool
 
-/-- the cursor is a uint16; err is the header's, overwritten by each record's -/
+/-- int cursor; err is the header's, overwritten by each record's; a record of length 0 is an error -/
 def unmarshalWith (childLen : MsgLenF) (recv : V) (data : Slice) : R V :=
   match recv with
   | .obj "MultipartReply" [h0, _, _, p, _] => do
     let (h, e) ← msgTryU Header.unmarshal h0 data
     let t ← data.u16From 8
     let f ← data.u16From 10
-    let st ← msgLoopW (σ := St) 65537 (fun s => s.n.toNat < Header.length h) (·.n.toNat)
+    let st ← msgLoopW (σ := St) 65537 (fun s => s.n < Header.length h) (·.n)
       (fun s => do
-        let d ← data.fromR s.n.toNat
+        let d ← data.fromR s.n
         let (r, e) ← decodeRecord t.toNat d
         let (l, r) ← childLen r
-        pure { n := s.n + l, body := s.body ++ [r], err := e })
+        if l = 0 then .err else
+        pure { n := s.n + l.toNat, body := s.body ++ [r], err := e })
       { n := 16, body := [], err := e }
     if st.err then .err else pure (.obj "MultipartReply" [h, V.u16 t, V.u16 f, p, .list st.body])
   | _ => .panic
@@ -1249,11 +1250,16 @@ def parseStep (self : Slice → R V) (b : Slice) : R V := do
   else if t = Gen.openflow13.Type_MultiPartReply then MultipartReply.unmarshalWith anyLenM MultipartReply.zero b
   else .err
 
+/-- `defer func() { if r := recover(); r != nil { message = nil; err = … } }()` -/
+def recoverR : R V → R V
+  | .panic => .err
+  | r => r
+
 /-- Parse with an explicit nesting bound (each BundleAdd level consumes at least 24 bytes of the backing array);
     depth 0 is unreachable when the bound is at least cap+1 -/
 def parseD : Nat → Slice → R V
   | 0, _ => .panic
-  | d + 1, b => parseStep (parseD d) b
+  | d + 1, b => recoverR (parseStep (parseD d) b)
 
 /-- openflow13.Parse.  `depth` = nesting bound supplied by the caller (`data.len + 1`); since `data[16:Length]` in
     VendorHeader may reach up to the capacity, the bound is raised to `cap + 1` when smaller. -/
